@@ -49,6 +49,9 @@ func seqModels(bases []In) []In {
 	for _, b := range bases {
 		for _, v := range seqVariants() {
 			m := clone(b)
+			for i := range m.Ver {
+				m.Ver[i] = (i + len(out)) % len(srcVersions) // the later models also vary the sources' own versions
+			}
 			m.Alias = v.alias
 			built := map[string]bool{}
 			for i := 0; i < m.N; i++ {
@@ -143,7 +146,7 @@ func callSequences(r *mc.Run) {
 	}
 	// earlier models: default names
 	var first []In
-	first = append(first, basesFor(2, nil)...)
+	first = append(first, basesFor(2, func(g graph) bool { return !r.Quick() || g.deps(2) <= 1 })...) // quick: the earlier model matters through its names; thorough takes all 25
 	first = append(first, basesFor(3, oneBin(3, 1))...)
 	first = append(first, basesFor(3, twoBin(3, 1))...)
 	// later models
